@@ -18,8 +18,9 @@ ASSUMPTIONS = [
     "weight = 2D length, z = 0, node coordinates = first/last vertex, SpatialIndex attached, prepare() called",
     "every edge has positive length; index extent non-degenerate and resolution <= extent in each dimension "
     "(otherwise the index constructor divides by a zero cell count - not this property); margin >= 0.05",
-    "coordinates on the 1/8 lattice for the network (exact vertical / horizontal segments), |coord| <= ~1e3 "
-    "(+ a rare 'very far' fix at ~1e4); tolerances: on-geometry 1e-6*scale, radius +1e-7*scale, abscissa 1e-6*scale",
+    "network coordinates dyadic (step 1/4, collinear mid-vertices 1/8, 1/16) in [-512, 512]: exactly vertical / horizontal "
+    "segments, or 3-decimal coordinates (|dx| >= 1e-3 unless exactly 0: no ill-conditioned near-vertical segment); fixes within ~2.5e3 (+ a rare 'very far' fix up to 2e4 away); tolerances with "
+    "scale = max |x|,|y| of the case: on-geometry 1e-6*scale, radius +1e-7*scale, abscissa 2e-6*scale, d0+d1 vs length 1e-6 relative",
     "candidate completeness is not demanded (an observation may be unmatched although an edge is within the radius)",
 ]
 
@@ -97,8 +98,16 @@ def _build_network(case):
 
 
 def _snapshot(tr):
-    return [(id(tr.getObs(i)), tr.getObs(i).position.getX(), tr.getObs(i).position.getY(),
-             tr.getObs(i).position.getZ(), gen.ms_of_obstime(tr.getObs(i).timestamp)) for i in range(tr.size())]
+    out = []
+    for i in range(tr.size()):
+        o = tr.getObs(i)
+        pos, ts = o.position, o.timestamp
+        if not isinstance(pos, ENUCoords):
+            raise Violation("track-position-changed", "observation %d: position is now %r" % (i, pos))
+        if not isinstance(ts, ObsTime):
+            raise Violation("track-timestamp-changed", "observation %d: timestamp is now %r" % (i, ts))
+        out.append((id(o), pos.getX(), pos.getY(), pos.getZ(), gen.ms_of_obstime(ts)))
+    return out
 
 
 def body(case):
@@ -113,7 +122,7 @@ def body(case):
         return {"undef": True, "cls": ["undef-index-precondition"]}
     radius, noise = case["radius"], case["noise"]
     obs = [tuple(p) for p in case["obs"]]
-    scale = max([1.0] + [abs(c) for g in geoms for p in g for c in p] + [abs(c) for p in obs for c in p])
+    scale = max([1.0] + [abs(c) for g in geoms for p in g for c in p] + [abs(c) for p in obs for c in p[:2]])
     tol_on = 1e-6 * scale
     tol_r = 1e-7 * scale
 
@@ -154,7 +163,8 @@ def body(case):
 
     # -- every observation: unmatched, or a point of an edge within the radius ----------------------
     matched_edges, n_un, cls = set(), 0, set()
-    for k, (ox, oy) in enumerate(obs):
+    for k, o in enumerate(obs):
+        ox, oy = o[0], o[1]
         s = track["hmm_inference", k]
         if not isinstance(s, tuple) or len(s) != 4:
             raise Violation("state-malformed", "hmm_inference[%d] = %r" % (k, s))
@@ -215,6 +225,8 @@ def body(case):
             cls.add("matched-obs-exactly-on-edge")
         if k in aligned:
             cls.add("matched-obs-aligned-with-vertical")
+    if any(c != round(c * 16) / 16 for p in case["nodes"] for c in p):
+        cls.add("net-decimal-coordinates")
     cls.add("res-none" if case["res"] is None else
             "res-square" if case["res"][0] == case["res"][1] else "res-rect")
     if vx:
@@ -243,7 +255,7 @@ def _lat(lo, hi, step=0.25):
 @st.composite
 def _network(draw):
     W = draw(st.sampled_from([8, 32, 32, 128, 128, 512]))
-    kind = draw(st.sampled_from(["grid", "grid", "shared", "free"]))
+    kind = draw(st.sampled_from(["grid", "grid", "shared", "free", "decimal"]))
     if kind == "grid":
         S = draw(st.sampled_from([W / 4, W / 8, W / 2]))
         ox, oy = draw(_lat(-W, W)), draw(_lat(-W, W))
@@ -257,6 +269,10 @@ def _network(draw):
         cells = draw(st.lists(st.tuples(st.integers(0, len(xs) - 1), st.integers(0, len(ys) - 1)),
                               min_size=3, max_size=min(10, len(xs) * len(ys)), unique=True))
         nodes = [[xs[i], ys[j]] for i, j in cells]
+    elif kind == "decimal":                                # 3-decimal coordinates: inexact arithmetic in the projections
+        dec = st.integers(-W * 1000, W * 1000).map(lambda k: k / 1000.0)
+        nodes = draw(st.lists(st.tuples(dec, dec).map(list), min_size=3, max_size=10,
+                              unique_by=lambda p: (p[0], p[1])))
     else:
         nodes = draw(st.lists(st.tuples(_lat(-W, W), _lat(-W, W)).map(list), min_size=3, max_size=10,
                               unique_by=lambda p: (p[0], p[1])))
@@ -334,7 +350,7 @@ def _case(draw):
         else:
             case["res"] = [ax / (n1 + f1), ay / (n2 + f2)]
     # ---- observations -------------------------------------------------------------------------------
-    nobs = draw(st.integers(1, 8))
+    nobs = draw(st.one_of(st.integers(1, 8), st.integers(4, 8)))
     vx = _vertical_xs(case)
     obs = []
     for _ in range(nobs):
@@ -381,7 +397,8 @@ def _case(draw):
                     break
                 d *= 3
             p[0] = p[0] + d
-        obs.append([float(p[0]), float(p[1])])
+        z = draw(st.sampled_from([0.0, 0.0, 0.0, 0.0, 50.0, -300.0]))
+        obs.append([float(p[0]), float(p[1])] + ([z] if z else []))
     case["obs"] = obs
     return case
 
@@ -417,7 +434,7 @@ def enum_sweep(tier):
                     yield case
 
 
-RULE = ("random: Hypothesis - networks of 2..12 edges on 3..11 nodes (grid / shared-coordinate / free lattice positions, "
+RULE = ("random: Hypothesis - networks of 2..12 edges on 3..11 nodes (grid / shared-coordinate / free lattice / 3-decimal positions, "
         "0..2 interior vertices incl. doglegs, collinear and repeated vertices, orientations 0/+1/-1, edge ids != edge numbers), "
         "index resolution None / square / rectangular built from a cell count 1..40, margin 0.05..0.5, radius in "
         "{0.5,1,5,5.5,25,100}, noise in {1,10,50}, 1..8 fixes = point of an edge + offset (on / perpendicular / along / axis "
@@ -426,6 +443,6 @@ RULE = ("random: Hypothesis - networks of 2..12 edges on 3..11 nodes (grid / sha
         "Non-trivial: >= 2 fixes matched to different edges and >= 1 fix unmatched. Distinct = hash of the case.")
 
 SUBCHECKS = [
-    SubCheck("random", body, strategy=strat_case, quick=3000, thorough=60000, qshards=16, tshards=16),
+    SubCheck("random", body, strategy=strat_case, quick=8000, thorough=120000, qshards=16, tshards=16),
     SubCheck("sweep", body, enum=enum_sweep, rule="test-suite network x lattice of track columns", qshards=4),
 ]
